@@ -101,6 +101,10 @@ func genC15(e *emitter, tier string, seed int64) {
 		{"strfmt-argument-fails", []scriptSrc{{"a.p", "l = [1]\nstrfmt(out, \"%v-%v\", message, l[5])\np(\"never\")\n"}}, 0},
 		{"strfmt-one-argument", []scriptSrc{{"a.p", "strfmt(out, \"<%v>\", message)\nprintf(\"%v|\", f1)\np(get_key(out))\n"}}, 0},
 		{"literal-mutation", []scriptSrc{{"a.p", "a = [\"x\", \"y\"]\np(a)\na[1] = \"changed\"\nm = {\"k\": [[0, 1], 2]}\np(m)\nm[\"k\"][0][1] = 9\nm[\"n\"] = 1\nadd_key(dump2, m)\n"}}, 0},
+		// (round 7) what the check pass learnt from one script (pattern names of a block, being inside a loop) is gone with it
+		{"grok-N-undefined-in-block", []scriptSrc{{"a.p", "if true {\n  grok(_, \"%{WORD:w} %{N:n}\")\n}\np(get_key(w), get_key(n))\n"}}, 0},
+		{"check-fail-in-loop", []scriptSrc{{"a.p", "for i = 0; i < 1; i = i + 1 {\n  for x in [1] {\n    nosuch(1)\n  }\n}\n"}}, 0},
+		{"stray-break", []scriptSrc{{"a.p", "add_key(sb1, 1)\nif true {\n  break\n}\nadd_key(sb2, 2)\n"}}, 0},
 		{"map-json", []scriptSrc{{"a.p", "j = load_json(\"{\\\"a\\\": [1, 2.5]}\")\nadd_key(j)\nadd_key(k2, j[\"a\"][1])\n"}}, 0},
 	}
 	points := []pointSpec{
